@@ -139,6 +139,26 @@ impl RuleCV06 {
                     .working_line_no
                 && !comment_segment.is_type(SyntaxKind::BlockComment)
             {
+                // The comment only trails this statement if nothing but its terminator
+                // stands in between: with code of a later statement on the same line,
+                // the terminator would be moved behind that code.
+                let raw_segments = parent_segment.get_raw_segments();
+                let start = anchor_segment
+                    .get_raw_segments()
+                    .last()
+                    .and_then(|last| raw_segments.iter().position(|it| it.id() == last.id()));
+                let end = raw_segments
+                    .iter()
+                    .position(|it| it.id() == comment_segment.id());
+                if let (Some(start), Some(end)) = (start, end) {
+                    if start < end
+                        && raw_segments[start + 1..end].iter().any(|it| {
+                            it.is_code() && !it.is_type(SyntaxKind::StatementTerminator)
+                        })
+                    {
+                        continue;
+                    }
+                }
                 return comment_segment.clone();
             }
         }
